@@ -208,10 +208,13 @@ type histCase[G algebra.PrimeGroupElement[G, S], S algebra.PrimeFieldElement[S]]
 	ops   []string
 }
 
+type signFn[G algebra.PrimeGroupElement[G, S], S algebra.PrimeFieldElement[S]] func(label string, msg []byte, orig *mpc.BaseShard[G, S], shards map[uint64]*mpc.BaseShard[G, S], quorum []uint64) string
+
 type runner[G algebra.PrimeGroupElement[G, S], S algebra.PrimeFieldElement[S]] struct {
-	c   *gctx[G, S]
-	a   vh.Args
-	res *vh.Result
+	c    *gctx[G, S]
+	a    vh.Args
+	res  *vh.Result
+	sign signFn[G, S] // nil: no threshold signing wired for this group
 }
 
 func (rn *runner[G, S]) propFail(id, key, detail, cs, what string) {
@@ -660,6 +663,21 @@ func (rn *runner[G, S]) runHistory(p histParams) *histCase[G, S] {
 							"C06_mixed_epochs (shares of different epochs do not combine)")
 					}
 				}
+				if rn.sign != nil && t == 0 && (rn.a.Tier == "thorough" || r.Chance(1, 2)) {
+					ms := map[uint64]*mpc.BaseShard[G, S]{}
+					for _, x := range a {
+						ms[x] = cur.shards[x]
+					}
+					for _, x := range b {
+						ms[x] = next.shards[x]
+					}
+					if bad := rn.sign(fmt.Sprintf("%s-h%d-m%d", c.name, p.idx, step), []byte("c06 mixed"), first, ms, mq); bad == "" {
+						rn.propFail(id, "mixed-epoch-shards-sign-validly",
+							fmt.Sprintf("step %d (%s): old shards of %v with new shards of %v produce a signature valid for the key", step, desc, a, b), cs,
+							"C06_mixed_epochs (shares of different epochs do not combine into a valid signature)")
+					}
+					rn.res.Distribution["lindell22 signing attempts with mixed-epoch shards (must fail)"]++
+				}
 				line = append(line, fmt.Sprintf("X|%s|%s|%s", idsText(a), idsText(b), coefsText(next.m, mq)))
 				hc.items = append(hc.items, expItem[G, S]{kind: 'X', value: mv, desc: fmt.Sprintf("old shares of %v + new shares of %v after step %d", a, b, step)})
 				rn.res.Distribution["mixed-epoch sets"]++
@@ -691,6 +709,21 @@ func (rn *runner[G, S]) runHistory(p histParams) *histCase[G, S] {
 		}
 		cur = next
 		hc.steps = step
+		// ---- a threshold signature with the shards of this epoch must verify under the ORIGINAL key
+		if rn.sign != nil && (step == length || rn.a.Tier == "thorough") {
+			if sall, smin := cur.qualifiedSets(0); len(sall) > 0 {
+				sq := vh.Pick(r, sall)
+				if len(smin) > 0 && r.Chance(1, 2) {
+					sq = vh.Pick(r, smin)
+				}
+				msg := []byte(fmt.Sprintf("c06 message %d/%d", p.idx, step))
+				if bad := rn.sign(fmt.Sprintf("%s-h%d-s%d", c.name, p.idx, step), msg, first, cur.shards, sq); bad != "" {
+					rn.propFail(id, "signature-after-epochs-invalid", fmt.Sprintf("after step %d (%s), quorum %v: %s", step, desc, sq, bad), cs,
+						"C06_history_invariant (a qualified quorum of the current epoch signs validly for the original key; Lindell22 Schnorr)")
+				}
+				rn.res.Distribution["lindell22 signatures with post-epoch shards"]++
+			}
+		}
 	}
 	hc.text = caseText(hc.steps)
 	hc.line = strings.Join(line, " ")
@@ -1204,8 +1237,8 @@ func (rn *runner[G, S]) runRefused(idx int) {
 // ---- main ---------------------------------------------------------------------------------------
 
 func runGroup[G algebra.PrimeGroupElement[G, S], S algebra.PrimeFieldElement[S]](c *gctx[G, S], a vh.Args, res *vh.Result,
-	nHist, maxLen, maxHolders, nZero, nDev, nRef int, only map[string]string) {
-	rn := &runner[G, S]{c: c, a: a, res: res}
+	nHist, maxLen, maxHolders, nZero, nDev, nRef int, only map[string]string, sign signFn[G, S]) {
+	rn := &runner[G, S]{c: c, a: a, res: res, sign: sign}
 	var lines []string
 	var hcs []*histCase[G, S]
 	var zcs []*zeroCase[G, S]
@@ -1308,10 +1341,13 @@ func main() {
 		a.Seed += 7919
 	}
 	if only == nil || only["group"] == "k256" {
-		runGroup(newCtx[*k256.Point, *k256.Scalar]("k256", k256.NewCurve()), a, res, nHist, maxLen, maxHolders, nZero, nDev, nRef, only)
+		runGroup(newCtx[*k256.Point, *k256.Scalar]("k256", k256.NewCurve()), a, res, nHist, maxLen, maxHolders, nZero, nDev, nRef, only,
+			func(label string, msg []byte, orig *mpc.BaseShard[*k256.Point, *k256.Scalar], shards map[uint64]*mpc.BaseShard[*k256.Point, *k256.Scalar], quorum []uint64) string {
+				return signK256(a.Seed, label, msg, orig, shards, quorum)
+			})
 	}
 	if (only == nil && a.Tier == "thorough") || (only != nil && only["group"] == "bls12381g1") {
-		runGroup(newCtx[*bls12381.PointG1, *bls12381.Scalar]("bls12381g1", bls12381.NewG1()), a, res, nHist/4, maxLen, maxHolders, nZero/4, nDev/4, nRef/2, only)
+		runGroup(newCtx[*bls12381.PointG1, *bls12381.Scalar]("bls12381g1", bls12381.NewG1()), a, res, nHist/4, maxLen, maxHolders, nZero/4, nDev/4, nRef/2, only, nil)
 	}
 	res.Write(a.Out)
 }
